@@ -22,11 +22,13 @@ EXTRA_TARGETS = ["drv_c15"]
 SIZES = [(1, 1), (7, 3), (8, 8), (9, 9), (16, 16), (33, 17), (64, 64)]
 FINDING_CLIP = "cursor-clip-last-col-row"
 FINDING_COLOUR = "xcursor-colour-unscaled"
+FINDING_SETENC = "setenc-soft-cursor-not-shown"
 # client pixel formats the scripts can name: bytes/pixel, (redMax, greenMax, blueMax), (shifts)
 FMTS = {"f8": (1, (7, 7, 3), (0, 3, 6)), "f8b": (1, (7, 7, 3), (5, 2, 0)),
         "f16": (2, (31, 31, 31), (0, 5, 10)), "f16b": (2, (31, 63, 31), (11, 5, 0)),
-        "f32": (4, (255, 255, 255), (0, 8, 16)), "f32b": (4, (255, 255, 255), (16, 8, 0))}
-SERVER_FMT = {1: "f8", 2: "f16", 4: "f32"}
+        "f32": (4, (255, 255, 255), (0, 8, 16)), "f32b": (4, (255, 255, 255), (16, 8, 0)),
+        "f24": (3, (255, 255, 255), (0, 8, 16))}
+SERVER_FMT = {1: "f8", 2: "f16", 3: "f24", 4: "f32"}
 
 
 def translate_px(p, sname, cname):
@@ -141,7 +143,7 @@ def positions(rng, W, cw, xh):
 
 
 def gen_script(rng, big=False, midfail=False):
-    bpp = rng.choice([1, 2, 4])
+    bpp = rng.choice([1, 2, 4, 1, 2, 4, 3])
     if big:
         W, H, bpp = rng.choice([(100, 90), (128, 70), (96, 96)]) + (4,)
     elif rng.random() < 0.08:
@@ -149,8 +151,11 @@ def gen_script(rng, big=False, midfail=False):
     else:
         W, H = rng.randint(6, 40), rng.randint(5, 30)
     lines = ["screen %d %d %d" % (W, H, bpp)]
-    cl, spec = gen_cursor(rng, bpp)
-    lines.append(cl)
+    if rng.random() < 0.15:                # keep the library's built-in default cursor (8x7, hot-spot 3,3)
+        spec = {"kind": "x", "w": 8, "h": 7, "xh": 3, "yh": 3}
+    else:
+        cl, spec = gen_cursor(rng, bpp)
+        lines.append(cl)
     kinds = ["raw"]
     if rng.random() < 0.7:
         kinds.append(rng.choice(["x", "rich", "raw"]))
@@ -159,7 +164,9 @@ def gen_script(rng, big=False, midfail=False):
     rng.shuffle(kinds)
     for i, k in enumerate(kinds):
         if rng.random() < 0.4:
-            lines.append("client %d %s %s" % (i, k, rng.choice(sorted(FMTS))))
+            # a 24-bit CLIENT format is only used on the 24-bit server (identity): table set-up for
+            # 24-bit output (tableinit24.c) does misaligned 32-bit stores - C10's territory
+            lines.append("client %d %s %s" % (i, k, rng.choice([f for f in sorted(FMTS) if f != "f24" or bpp == 3])))
         else:
             lines.append("client %d %s" % (i, k))
     nrounds = rng.choice([2, 4, 7, 10]) if not big else 3
@@ -179,6 +186,8 @@ def gen_script(rng, big=False, midfail=False):
             py = rng.choice(positions(rng, H, ch, yh))
             b = 0 if rng.random() < 0.85 else rng.choice([1, 4])
             lines.append("ptr %d %d %d %d" % (rng.randrange(len(kinds)), px, py, b))
+        if rng.random() < 0.12:              # a client changes its cursor capability mid-session
+            lines.append("setenc %d %s" % (rng.randrange(len(kinds)), rng.choice(["raw", "x", "rich"])))
         for i in range(len(kinds)):
             q = rng.random()
             if q < 0.62 or big:
@@ -220,6 +229,31 @@ def parse_cursor_op(t, bpp):
     return s
 
 
+_DEFCUR = {}
+
+
+def update_buf_size():
+    """UPDATE_BUF_SIZE as regenerated by T0 for this run"""
+    if "ubs" not in _DEFCUR:
+        txt = open(os.path.join(common.LEAN, "VncModel", "Gen", "C15.lean")).read()
+        _DEFCUR["ubs"] = int(re.search(r"def UPDATE_BUF_SIZE : Nat := (\d+)", txt).group(1))
+    return _DEFCUR["ubs"]
+
+
+def default_cursor_spec():
+    """the library's built-in cursor, read from main.c by the T0 extractor's parser"""
+    if "c" not in _DEFCUR:
+        import importlib.util
+        from .. import build
+        spec = importlib.util.spec_from_file_location("consts_c15", os.path.join(common.VERIF, "tools", "consts", "c15.py"))
+        m = importlib.util.module_from_spec(spec)
+        spec.loader.exec_module(m)
+        c = m.parse_default_cursor(build.REPO)
+        _DEFCUR["c"] = {"kind": "x", "w": c["w"], "h": c["h"], "xh": c["xh"], "yh": c["yh"],
+                        "src": bytes(c["src"]), "mask": bytes(c["mask"]), "fg": c["fg"], "bg": c["bg"]}
+    return dict(_DEFCUR["c"])
+
+
 def check_shape(shape, ckind, cur, bpp, cfmt=None):
     """cursor pseudo-rectangle vs the script's cursor: exact size, hot-spot, colours/pixels, mask"""
     tag = "X" if ckind == "x" else "R"
@@ -240,6 +274,12 @@ def check_shape(shape, ckind, cur, bpp, cfmt=None):
         maybe_empty = False
     if maybe_empty and (xh, yh, w, h, payload) == empty:
         return None
+    # a cursor whose rectangle (header, colours, mask, data) exceeds the update buffer is announced
+    # as the empty cursor (rule of f43cbce)
+    cb0 = FMTS[cfmt][0] if cfmt else bpp
+    mb0 = rb(cur["w"]) * cur["h"]
+    if 12 + 6 + mb0 + (mb0 if tag == "X" else cur["w"] * cur["h"] * cb0) > update_buf_size():
+        return None if (xh, yh, w, h, payload) == empty else "a cursor that does not fit the update buffer must be sent as the empty cursor"
     if (xh, yh, w, h) != (cur["xh"], cur["yh"], cur["w"], cur["h"]):
         return "cursor rectangle says hot=%d,%d size=%dx%d, cursor is hot=%d,%d size=%dx%d" % (
             xh, yh, w, h, cur["xh"], cur["yh"], cur["w"], cur["h"])
@@ -277,7 +317,7 @@ def oracle(script, impl):
     ops = [l for l in script.splitlines() if l and not l.startswith("#")]
     i = 0
     bpp, W, H = 4, 0, 0
-    cur = {"kind": "none"}
+    cur = default_cursor_spec()
     kinds, dead, owed_shape, owed_pos, cfmts = {}, set(), {}, {}, {}
     pos, pclient = (0, 0), None
     for op in ops:
@@ -345,6 +385,14 @@ def oracle(script, impl):
             cfmts[c] = t[3] if len(t) > 3 else None
             owed_shape[c] = True
             owed_pos[c] = t[2] != "raw"
+        elif t[0] == "setenc":
+            c = int(t[1])
+            kinds[c] = t[2]
+            if t[2] != "raw":           # shape and position become due again
+                owed_shape[c] = True
+                owed_pos[c] = True
+            else:
+                owed_shape[c] = owed_pos[c] = False
         elif t[0] == "ptr":
             c, x, y, b = int(t[1]), int(t[2]), int(t[3]), int(t[4]) & 0xff
             if pclient is None or pclient == c:
@@ -366,7 +414,7 @@ def stats_of(script, impl, dist):
         t = l.split()
         if not t:
             continue
-        k = t[0] + (":" + t[1] if t[0] == "cursor" else "") + (":" + t[2] if t[0] == "client" else "")
+        k = t[0] + (":" + t[1] if t[0] == "cursor" else "") + (":" + t[2] if t[0] in ("client", "setenc") else "")
         dist["ops"][k] = dist["ops"].get(k, 0) + 1
         if t[0] == "screen":
             dist["bpp"][t[3]] = dist["bpp"].get(t[3], 0) + 1
@@ -402,8 +450,10 @@ def matrix_scripts(rng):
     kind, with multi-row rich / X / alpha cursors, so that pixel translation of Raw data and of the
     RichCursor payload (input row stride!) is exercised for every bytes-per-pixel combination"""
     out = []
-    for sb in (1, 2, 4):
+    for sb in (1, 2, 3, 4):
         for cf in sorted(FMTS):
+            if cf == "f24" and sb != 3:
+                continue
             for kind in ("rich", "raw", "x"):
                 W, H = 13, 9
                 lines = ["screen %d %d %d" % (W, H, sb)]
@@ -424,6 +474,46 @@ def matrix_scripts(rng):
                 lines.append("cursor alpha %d %d 2 2 %s %s %d" % (w, h, hx(pix), hx(alpha), rng.randint(0, 1)))
                 lines += ["ptr 1 6 4 0", "req 0 1 0 0 %d %d" % (W, H), "req 1 1 0 0 %d %d" % (W, H), "pump"]
                 out.append("\n".join(lines) + "\n")
+    # cursor rectangles at the update-buffer limit: exactly at it (flush first), just below (with and
+    # without the preliminary flush), one and two bytes over it (-> empty cursor); zero-size cursors
+    L = update_buf_size()
+    for sb, kind, cf, w, h in ((1, "rich", None, 116, 250), (1, "rich", None, 127, 229), (1, "rich", None, 157, 185),
+                               (4, "rich", None, 567, 14), (4, "rich", None, 294, 27), (4, "rich", None, 89, 89),
+                               (4, "rich", "f16b", 123, 125), (4, "rich", "f8b", 222, 131),
+                               (2, "x", None, 200, 655), (2, "x", None, 184, 712)):
+        W, H = 20, 15
+        pix = bytes(rng.randrange(256) for _ in range(w * h * sb))
+        mask = rand_bits(rng, w, h, "dense", False)
+        lines = ["screen %d %d %d" % (W, H, sb)]
+        if kind == "rich":
+            lines.append("cursor rich %d %d %d %d %s %s 65535 0 0 0 0 65535" % (w, h, 2, 1, hx(pix), hx(mask)))
+        else:
+            lines.append("cursor x %d %d %d %d %s %s 65535 0 0 0 0 65535" % (w, h, 2, 1, hx(rand_bits(rng, w, h, "random", False)), hx(mask)))
+        lines += ["client 0 rich" + (" " + cf if cf else ""), "client 1 x", "client 2 raw", "ptr 2 8 6 0"]
+        lines += ["req %d 0 0 0 %d %d" % (i, W, H) for i in range(3)] + ["pump"]
+        lines += ["cursor x 3 2 0 0 e040 e0e0 0 0 0 65535 65535 65535", "ptr 2 %d %d 0" % (W - 1, H - 1)]
+        lines += ["req %d 1 0 0 %d %d" % (i, W, H) for i in range(3)] + ["pump"]
+        out.append("\n".join(lines) + "\n")
+        if (w, h) == (116, 250):      # the write of the preliminary flush fails
+            out.append("\n".join(lines[:6] + ["req 0 0 0 0 %d %d" % (W, H), "failnext 0 0", "pump", "pump"]) + "\n")
+    for sb in (1, 4):
+        for w, h in ((0, 0), (0, 5), (7, 0)):
+            W, H = 9, 7
+            out.append("\n".join(["screen %d %d %d" % (W, H, sb), "client 0 raw", "req 0 0 0 0 %d %d" % (W, H), "pump",
+                                  "cursor x %d %d 0 0 - - 65535 65535 65535 0 0 0" % (w, h), "ptr 0 4 3 0",
+                                  "req 0 1 0 0 %d %d" % (W, H), "pump", "ptr 0 %d %d 0" % (W, H),
+                                  "req 0 1 0 0 %d %d" % (W, H), "pump"]) + "\n")
+    # cursor capability switched mid-session, with the library's default cursor and without any
+    # pointer movement between the switch and the next update
+    for sb in (1, 3, 4):
+        for a, b in (("x", "raw"), ("rich", "raw"), ("raw", "x"), ("raw", "rich"), ("x", "rich"), ("rich", "x")):
+            W, H = 12, 9
+            full = lambda i, inc=1: "req %d %d 0 0 %d %d" % (i, inc, W, H)
+            out.append("\n".join([
+                "screen %d %d %d" % (W, H, sb), "client 0 %s" % a, "client 1 raw",
+                full(0, 0), full(1, 0), "pump", "setenc 0 %s" % b, full(0), full(1), "pump",
+                "ptr 1 5 4 0", full(0), full(1), "pump", "setenc 0 %s" % a, full(0), "pump",
+                "ptr 1 %d %d 0" % (W - 1, H - 1), "setenc 0 %s" % b, full(0), full(1), "pump"]) + "\n")
     return out
 
 
@@ -477,10 +567,13 @@ def run(ctx):
             except Exception as e:      # the oracle must never hide a problem
                 o = "oracle raised %r" % (e,)
         explained = None
-        if (f and f["kind"] == "exact") or o:
-            # does the implementation behave exactly like the model of the known-defective original?
-            for args, fid in ((("orig-clip",), [FINDING_CLIP]), (("orig-colour",), [FINDING_COLOUR]),
-                              (("orig-clip", "orig-colour"), [FINDING_CLIP, FINDING_COLOUR])):
+        if f and f["kind"] == "exact":
+            # the repaired model disagrees: does the implementation behave exactly like the model of
+            # the known-defective original?
+            for args, fid in ((("orig-setenc",), [FINDING_SETENC]),
+                              (("orig-clip",), [FINDING_CLIP]), (("orig-colour",), [FINDING_COLOUR]),
+                              (("orig-clip", "orig-colour"), [FINDING_CLIP, FINDING_COLOUR]),
+                              (("orig-clip", "orig-colour", "orig-setenc"), [FINDING_CLIP, FINDING_COLOUR, FINDING_SETENC])):
                 if not ctx.driver_ok or not with_model:
                     break
                 rc2, m2, _ = ctx.run_lines(d, sc, args=args, timeout=300)
@@ -537,8 +630,9 @@ def run(ctx):
 
 
 PARTIAL = [
-    "alpha-blended cursors: hide_show_id / no_oob / dirty region are proved for them too; `painted_eq_overlay` for the alpha path is stated with the model's `blend` arithmetic (tied by correspondence), not against an independent colour-theoretic specification",
-    "cursor conversions (rfbMakeXCursorFromRichCursor, rfbMakeMaskForXCursor, rfbMakeMaskFromAlphaSource, rfbMakeXCursor): modelled and compared byte-for-byte with the code on every run, no theorem beyond sizes",
+    "alpha blending: proved per channel (a*src/255 + (255-a)*dst/255, within the format) for non-premultiplied sources on packed formats; premultiplied sources are characterised by the model's `blend` only (tied by correspondence)",
+    "rfbMakeMaskFromAlphaSource: threshold of the first pixel, all-transparent -> empty mask, all-opaque -> full mask are proved; the error diffusion in general is tied by correspondence only",
+    "big-endian server pixel formats (the `back += 4-bpp` arms of the conversions) are not modelled",
 ]
 ASSUMPTIONS = [
     "regions are pixel sets (that rfbregion.c implements set algebra is property C11); the harness sets maxRectsPerUpdate high so that the update region is not coarsened to its bounding box (coarsening only enlarges what is sent)",
